@@ -125,9 +125,18 @@ func (tr *FnTr) modelPutUint(s Val, v *Term, n int, be bool, p token.Pos) {
 
 // bytesEqual: extensional equality of two byte slices in the current memory.
 func (tr *FnTr) bytesEqual(a, b Val) *Term {
-	r := tr.vc.Fresh("bytes_eq", SBool)
 	aa := tr.vc.Def("eq_a", Select(tr.st.Mem, a.L[0]))
 	ba := tr.vc.Def("eq_b", Select(tr.st.Mem, b.L[0]))
+	if tr.top.refute {
+		const bound = 40
+		tr.st.Reach = tr.vc.Def("reach", And(tr.st.Reach, Le(a.L[2], Int(bound))))
+		cs := []*Term{Eq(a.L[2], b.L[2])}
+		for k := int64(0); k < bound; k++ {
+			cs = append(cs, Implies(Lt(Int(k), a.L[2]), Eq(Select(aa, Add(a.L[1], Int(k))), Select(ba, Add(b.L[1], Int(k))))))
+		}
+		return tr.vc.Def("bytes_eq", And(cs...))
+	}
+	r := tr.vc.Fresh("bytes_eq", SBool)
 	j := Sym("j!q", SInt)
 	same := Forall([]*Term{j}, Implies(And(Le(Int(0), j), Lt(j, a.L[2])), Eq(Select(aa, Add(a.L[1], j)), Select(ba, Add(b.L[1], j)))))
 	tr.vc.Assume(Eq(r, And(Eq(a.L[2], b.L[2]), same)))
